@@ -336,8 +336,8 @@ func rewriteFile(path string, src []byte, pre []edit, osMode, noSched bool) ([]b
 								ferr = fmt.Errorf("%s: time.%s is not supported by the scheduler shim", fset.Position(x.Pos()), se.Sel.Name)
 							}
 						}
-						if ctxName != "" && id.Name == ctxName && se.Sel.Name == "WithCancel" {
-							cands = append(cands, cand{x.Fun, "context.WithCancel", par})
+						if ctxName != "" && id.Name == ctxName && (se.Sel.Name == "WithCancel" || se.Sel.Name == "WithTimeout" || se.Sel.Name == "WithDeadline") {
+							cands = append(cands, cand{x.Fun, "context." + se.Sel.Name, par})
 						}
 					}
 				}
@@ -407,6 +407,10 @@ func rewriteFile(path string, src []byte, pre []edit, osMode, noSched bool) ([]b
 				t = "vsched.Until"
 			case "context.WithCancel":
 				t = "vsched.WithCancel"
+			case "context.WithTimeout":
+				t = "vsched.WithTimeout"
+			case "context.WithDeadline":
+				t = "vsched.WithDeadline"
 			case "select":
 				s := c.n.(*ast.SelectStmt)
 				var pre, sw strings.Builder
